@@ -264,6 +264,8 @@ Theorem C01_tok_ok_reflect : forall t, tok_ok t = true <-> TokOk t.
 Proof. exact tok_ok_reflect. Qed.
 Theorem C01_item_ok_reflect : forall it, item_ok it = true <-> ItemOk it.
 Proof. exact item_ok_reflect. Qed.
+Theorem C01_ty_ok_reflect : forall t, ty_ok t = true <-> TyOk t.
+Proof. exact ty_ok_reflect. Qed.
 Theorem C01_wf_module_reflect : forall m toks, wf_module_b m toks = true <-> WfModule m toks.
 Proof. exact wf_module_reflect. Qed.
 
@@ -274,21 +276,39 @@ Proof. exact wf_module_reflect. Qed.
      index.ts are proved above at text level, with the hole premises replaced by the budget predicates
      (binding names, identifier leaves, nesting within the parser budget);
    - C01_lex_compositional_full_statement in general: proved per hole class and as a chain rule, and for all chunks of
-     the three plain-mode files (cslex); numeric bare keys (never printed by the model) and Zod expression holes have
-     no lexing lemma. *)
+     the three plain-mode files (cslex); Zod expression holes have no lexing lemma; the statement itself is false
+     without adjacency conditions (C01_lex_compositional_general_refuted below). *)
 Definition C01_skeleton_full_statement : Prop :=
   forall g ss cmds evs f items,
     (forall cs, In cs items -> In cs (fl_required (gen_file g ss cmds evs f)) \/ In cs (fl_optional (gen_file g ss cmds evs f))) ->
     (forall h, In h (holes (fl_prefix (gen_file g ss cmds evs f) ++ List.concat items)) -> hole_ok (fst h) (snd h) = true) ->
     c01_ok (text (fl_prefix (gen_file g ss cmds evs f) ++ List.concat items)) = true.
+(* the remainder, restated with the premise the refutation below shows to be necessary: no hole text opens a comment *)
 Definition C01_skeleton_remaining_statement : Prop :=
   forall g ss cmds evs f items,
     (f = FEvents \/ (g_zod g = true /\ f <> FIndex)) ->
     (forall cs, In cs items -> In cs (fl_required (gen_file g ss cmds evs f)) \/ In cs (fl_optional (gen_file g ss cmds evs f))) ->
-    (forall h, In h (holes (fl_prefix (gen_file g ss cmds evs f) ++ List.concat items)) -> hole_ok (fst h) (snd h) = true) ->
+    (forall h, In h (holes (fl_prefix (gen_file g ss cmds evs f) ++ List.concat items)) ->
+       hole_ok (fst h) (snd h) = true /\ has_sub "//" (snd h) = false /\ has_sub "/*" (snd h) = false) ->
     c01_ok (text (fl_prefix (gen_file g ss cmds evs f) ++ List.concat items)) = true.
 Definition C01_lex_compositional_full_statement : Prop :=
   forall cs, (forall h, In h (holes cs) -> hole_ok (fst h) (snd h) = true) -> lexed cs = toks_of cs.
+
+(* C01_skeleton_full_statement as stated (premise: hole_ok of every hole) is FALSE: a type_mappings target ending in a
+   line comment is a good type hole on its own and swallows the rest of the wrapper line in place. The theorems above
+   use the budget predicates (identifier leaves) instead; the remainder is restated with a no-comment premise. *)
+Theorem C01_skeleton_hole_premise_refuted : ~ C01_skeleton_full_statement.
+Proof. exact skeleton_hole_premise_refuted. Qed.
+(* every good bare key lexes to one token: identifier names as above, decimal literals (never printed bare by the model)
+   in front of every continuation that does not start with an identifier character or a dot *)
+Theorem C01_key_hole_lex_all : forall s, hole_ok HKey s = true ->
+  (is_ident_name s = true /\ lexes bnd s [KId s]) \/ (num_ok s = true /\ lexes num_bnd s [KNum s]).
+Proof. exact key_hole_lexes. Qed.
+(* C01_lex_compositional_full_statement as stated (arbitrary chunk lists, no adjacency conditions) is FALSE: two good
+   name holes side by side merge into one identifier. The provable form is the chain rule C01_lex_compositional_chain
+   (used for all chunks of the three plain-mode files). *)
+Theorem C01_lex_compositional_general_refuted : ~ C01_lex_compositional_full_statement.
+Proof. exact lex_compositional_general_refuted. Qed.
 
 (* ---- non-vacuity ---- *)
 Example C01_ex_key : plain_ident (L "user_id") = true /\ kebab_rule (eff_rule (Some RCamel) (L "snake_case")) = false /\
@@ -350,6 +370,12 @@ Example C01_ex_plain_commands :
   forallb (wrapper_in_budget g0) ex_wcmds = true /\ c01_ok (text (all_chunks (plain_commands g0 ex_wcmds))) = true.
 Proof. exact plain_commands_example. Qed.
 
+Example C01_ex_num_key : hole_ok HKey (L "1.5e3") = true /\ is_ident_name (L "1.5e3") = false /\ lex_module (L "1.5e3") = [KNum (L "1.5e3")].
+Proof. vm_compute. repeat split. Qed.
+
+Example C01_ex_ty_ok : TyOk (TyUnion [TyArr (TyRef [L "types"; L "User"] []); TyRef [L "null"] []]) /\ ~ TyOk (TyRef [L "delete"] []).
+Proof. exact ty_ok_example. Qed.
+
 Print Assumptions C01_key_chunk_ok.
 Print Assumptions C01_member_access_ok.
 Print Assumptions C01_rust_ident_is_ident.
@@ -400,3 +426,7 @@ Print Assumptions C01_ret_text_lex.
 Print Assumptions C01_wrapper_item_text_ok.
 Print Assumptions C01_plain_commands_text_ok.
 Print Assumptions C01_index_text_ok.
+Print Assumptions C01_key_hole_lex_all.
+Print Assumptions C01_lex_compositional_general_refuted.
+Print Assumptions C01_skeleton_hole_premise_refuted.
+Print Assumptions C01_ty_ok_reflect.
